@@ -118,9 +118,9 @@ def random_instance(rnd: random.Random, size="small"):
     return m
 
 
-def _imp(sym, id=-1, w=None):
+def _imp(sym, id=-1, w=None, pre=""):
     from fractions import Fraction
-    return Desc(sym, id, Fraction(w) if w is not None else None, None, True)
+    return Desc(sym, id, Fraction(w) if w is not None else None, None, True, pre)
 
 
 def extra_instances():
@@ -165,6 +165,14 @@ def extra_instances():
     add(Mol([Token(["OC", _imp("$", w=0)]), S("[$]", ["[$]CC[$]"], ["[$][H]"], "[$]", g(30)),
              Token([_imp("$"), "CO", _imp("$", w=0)]), S("[$]", ["[$]CS[$]"], ["[$]F"], "[$]", g(40)),
              Token([_imp("$"), "N"])], name="implicit-connector-dollar"))
+    # ... next to terminals that are written with a bond order and / or an id: the inserted descriptor is the terminal's, bond characters and id included
+    add(Mol([Token(["N", _imp("$", w=0, pre="=")]), S("=[$]", ["[$]=CC[$]"], ["[$][H]", "[$]=O"], "[]", g(60))], name="implicit-prefix-double-bond-terminal"))
+    add(Mol([Token(["OC", _imp(">", id=1, w=0)]), S("[>1]", ["[<1]CC[>1]"], [], "[<1]", g(40)),
+             Token([_imp("<", id=1), "CO", _imp(">", id=0, w=0)]), S("[>0]", ["[<0]CS[>0]"], [], "[<0]", g(50)),
+             Token([_imp("<", id=0), "F"])], name="implicit-connector-ids"))
+    # two kinds of open descriptors when the object is finalised, the one that does NOT fit the right terminal written first: the reserved
+    # descriptor is the one handed over, the other kind is capped by its own end group
+    add(M("C[<]", S("[<]", ["[>]NC(C[<1|0|])C(=O)[<]"], ["[>1][H]", "[>]O"], "[>]", g(150)), "[>]NC", name="reserve-among-two-kinds"))
     # the only compatible candidate has weight zero while an incompatible descriptor of the same list has another weight
     add(M(S("[]", ["[<]CC([>])c1ccccc1"], ["[<|0|][H]", "[>]N"], "[]", g(110)), name="zero-sole-candidate"))
     # a descriptor in a branch on an atom whose chain continues with a double bond; a list with weight on an end group
@@ -231,6 +239,9 @@ def chem_instances(tier):
     # not the root of the token
     add(M("C[>]", S("[>]", ["[<]CC(C(=O)OCC([>2])C)[>]", "[<2]CO[>2]"], ["[<2]F", "[<][H]"], "[<]", g(150)), "[<]O", name="chem-descriptor-at-depth-2"))
     add(M("CC(C(=O)OCC([>])C)C", S("[>]", ["[<]CC(C(=O)OC(C(C)([>]))C)[>]", "[<]CC[>]"], ["[<][H]"], "[<]", g(160)), "[<]N", name="chem-descriptor-at-depth-3"))
+    # tokens of a hundred atoms and more (a written-out macro-initiator, a large end group): residues are whole copies whatever their size
+    big = "CC(c1ccccc1)" * 13
+    add(M(big + "[>]", S("[>]", ["[<]CC[>]"], ["[<]" + "C(C)C" * 34], "[<]", g(40)), "[<]O", name="chem-hundred-atom-tokens"))
     return I
 
 
